@@ -118,6 +118,15 @@ def run_case(exe, base, idx, c):
     return c, "ok", "", got
 
 
+def sys_jobs(hs, tier):
+    sj = [wmmlib.sys_stop_job(hs, 0, 1, "l1,S0"), wmmlib.sys_stop_job(hs, 0, 2, "l1,l2,S0"), wmmlib.sys_stop_job(hs, 0, 0, "l1,l2,l3,l4,S0"),
+          wmmlib.sys_stop_job(hs, 0, 1, "l1,x0,l2,S0")]
+    if tier != "quick":
+        sj += [wmmlib.sys_stop_job(hs, 1, 1, "l1,S0", "l1", deadline=1500), wmmlib.sys_stop_job(hs, 0, 3, "l1,l2,l3,S0", deadline=1500), wmmlib.sys_stop_job(hs, 1, 1, "l1,S0", "l1,x0", deadline=1500),
+               wmmlib.sys_stop_job(hs, 0, 2, "l1,x0,l2,S0", deadline=1500)]
+    return sj
+
+
 def run(ctx):
     ctx.rule = ("every statement boundary k of a program of n statements x every fault {Backend::stop, exit, return from main, "
                 "SIGSEGV, SIGABRT, SIGFPE, SIGILL, SIGINT, SIGTERM with the built-in handler} x backend progress at the fault "
@@ -155,11 +164,7 @@ def run(ctx):
     # backend thread's loop (real _poll / _exit), at every atomic operation and with every load value the C++11 model admits:
     # when stop() has returned (request + join) every statement the stopping thread logged before is at the sink
     hs = wmmlib.build_sys()
-    sj = [wmmlib.sys_stop_job(hs, 0, 1, "l1,S0"), wmmlib.sys_stop_job(hs, 0, 2, "l1,l2,S0"), wmmlib.sys_stop_job(hs, 0, 0, "l1,l2,l3,l4,S0"),
-          wmmlib.sys_stop_job(hs, 0, 1, "l1,x0,l2,S0")]
-    if ctx.tier != "quick":
-        sj += [wmmlib.sys_stop_job(hs, 1, 1, "l1,S0", "l1", deadline=1500), wmmlib.sys_stop_job(hs, 0, 3, "l1,l2,l3,S0", deadline=1500), wmmlib.sys_stop_job(hs, 1, 1, "l1,S0", "l1,x0", deadline=1500),
-               wmmlib.sys_stop_job(hs, 0, 2, "l1,x0,l2,S0", deadline=1500)]
+    sj = sys_jobs(hs, ctx.tier)
     wmmlib.run_sys(ctx, sj)
     ctx.rule += ("; Backend::stop() at atomic-operation granularity (Engine A whole-system variant): real log calls and the real stop() against the "
                  "backend thread's loop and final drain, all interleavings and C++11-admissible load values")
